@@ -73,6 +73,7 @@ func runParent(r *ev.Run) {
 				r.Count("requests.admitted", rep.Admitted)
 				r.Count("requests.refused", rep.Refused)
 				r.Count("requests.contention-refusals", rep.Contention)
+				r.Count("requests.offered-again-at-quiescence", rep.QuiescentRetries)
 				r.Count("rounds.with-overlapping-conflict", btoi(rep.Overlap > 0))
 				r.Count("porcupine."+rep.Porcupine, 1)
 				if rep.Porcupine == "unknown" {
